@@ -336,6 +336,29 @@ def where(body, bb=None, stmt=None):
     return '%s:%d (%s bb%d)' % (sp['file'], sp['line'], body.path, bb)
 
 
+def _anchor_files(prop):
+    """The source files the property is anchored in (properties.jsonl, anchors.files)."""
+    import json
+    here = os.path.dirname(os.path.dirname(os.path.abspath(__file__)))
+    try:
+        for ln in open(os.path.join(here, 'properties.jsonl')):
+            d = json.loads(ln)
+            if d.get('id') == prop:
+                return list((d.get('anchors') or {}).get('files') or [])
+    except OSError:
+        pass
+    return []
+
+
+def _wiring(ctx, prop):
+    """WIRE (every property): in the files the property is anchored in, a call that passes named locals to parameters of the
+    same names passes them in the parameters' positions (pk/rules/common.py::named_argument_wiring)."""
+    from .rules.common import named_argument_wiring
+    files = set(_anchor_files(prop))
+    bodies = [b for b in ctx.facts.bodies.values() if not b.is_closure and not b.derived and (b.span or {}).get('file') in files]
+    named_argument_wiring(ctx, 'WIRE', bodies, min_sites=0, what='the caller')
+
+
 def run_property(prop, tier='quick', explain=None):
     t0 = time.time()
     seed = int(os.environ.get('VERIF_SEED', '0') or 0)
@@ -359,6 +382,7 @@ def run_property(prop, tier='quick', explain=None):
         ctx.config = 'dev'
         rep.configs.append('dev (cargo +nightly check --lib --bins, -Zmir-opt-level=0)')
         mod.run(ctx)
+        _wiring(ctx, prop)
         if tier == 'thorough':
             # same obligations on the release code-generation switches
             fdir2 = extract('rel')
@@ -372,6 +396,7 @@ def run_property(prop, tier='quick', explain=None):
             rep2 = Report(prop, tier)
             c2.rep = rep2
             mod.run(c2)
+            _wiring(c2, prop)
             rep.configs.append('rel (-C debug-assertions=off -C overflow-checks=off)')
             for o in rep2.obligations:
                 o = dict(o)
